@@ -24,6 +24,29 @@ LEVEL_TEXT = (
 PRIMS = ("_init", "_put", "_get")
 
 
+def empty_marker(P) -> str:
+    """The value that means 'no item remembered': what _init stores in the field -- None, or a module-level sentinel object."""
+    q = P.cls("SkipRepeatsQueue")
+    mf = q.methods.get("_init")
+    if mf is None:
+        return "None"
+    vals = set()
+    for p in Enumerator(ThreadCfg(P, follow_attrs=False)).run(mf, selfcls="SkipRepeatsQueue"):
+        for e in p.evs:
+            if e.kind == "store" and e.extra.get("attr") == "_last_item":
+                vals.add(e.extra.get("value"))
+    if len(vals) != 1:
+        return "None"
+    v = vals.pop()
+    if v == "None":
+        return v
+    c = q.module.consts.get(v)
+    # a sentinel: a module-level name bound to a fresh object() (compared by identity only)
+    if c is not None and isinstance(c, ast.Call) and ast.unparse(c.func) == "object" and not c.args:
+        return v
+    return "None"
+
+
 def queue_bookkeeping(ctx, RB, RD, RR):
     """Ownership of the duplicate bookkeeping, delegation of the primitives to the FIFO base, reset on dequeue (shared with
     C01 / C04: any of them failing makes the observer's event queue drop or duplicate an event)."""
@@ -81,6 +104,8 @@ def queue_bookkeeping(ctx, RB, RD, RR):
         )
 
     en = Enumerator(ThreadCfg(P, follow_attrs=False))
+    EMPTY = empty_marker(P)
+    ctx.extra["nothing_remembered_marker"] = EMPTY
     # ---- _put / _get delegate once
     for prim, base_call in (("_put", "super()._put"), ("_get", "super()._get"), ("_init", "super()._init")):
         mf = q.methods.get(prim)
@@ -104,8 +129,11 @@ def queue_bookkeeping(ctx, RB, RD, RR):
             for p in paths:
                 cmp_true = [a for a, t in p.conds().items() if field in a and ("super()._get()" in a) and t]
                 cmp_false = [a for a, t in p.conds().items() if field in a and ("super()._get()" in a) and not t]
-                resets = [e for e in p.evs if e.kind == "store" and e.extra.get("attr") == field and e.extra.get("value") == "None"]
-                if cmp_true and not resets:
+                resets = [e for e in p.evs if e.kind == "store" and e.extra.get("attr") == field and e.extra.get("value") == EMPTY]
+                other = [e for e in p.evs if e.kind == "store" and e.extra.get("attr") == field and e.extra.get("value") != EMPTY]
+                if cmp_true and not resets and other:
+                    ok3, msg = False, f"the dequeued item is the remembered one and _last_item is set to `{other[0].extra.get('value')}`, which is not the 'nothing remembered' marker `{EMPTY}` that _init stores: the two states 'fresh queue' and 'tail consumed' are told apart by put() (an item equal to one marker, e.g. None, is dropped or accepted depending on the history)"
+                elif cmp_true and not resets:
                     ok3, msg = False, "the dequeued item is the remembered one but _last_item is not cleared: an equal item put next is dropped although nothing is pending"
                 if resets and not cmp_true:
                     ok3, msg = False, "_last_item is cleared although the dequeued item is not the remembered one: a duplicate of the still-pending last item is then accepted"
@@ -266,17 +294,18 @@ def skip_decision(ctx, RS, q=None):
     ctx.count("paths", len(paths))
     # decided on the atoms of the enumerated paths (helpers inlined, locals substituted): nothing but item and _last_item
     pitem = ([a.arg for a in pf.node.args.args if a.arg != "self"] or ["item"])[0]
+    EMPTY = empty_marker(P)
     foreign = set()
     for p in paths:
         for a in p.conds():
-            names = set(re.findall(r"[A-Za-z_][\w.]*", a)) - {"is", "None", "not", "in", "and", "or"}
+            names = set(re.findall(r"[A-Za-z_][\w.]*", a)) - {"is", "None", "not", "in", "and", "or", EMPTY}
             if not names <= {pitem, f"self.{field}"}:
                 foreign.add(a)
     ctx.check(not foreign, RS, "SkipRepeatsQueue.put decision inputs", f"the skip decision reads something other than the item and _last_item: {sorted(foreign)[:3]}", pf.loc)
     ok, msg = True, ""
     for p in paths:
         deleg = [e for e in p.evs if e.kind == "call" and e.extra.get("func") == "super().put"]
-        a = p.conds().get(f"self.{field} is None")
+        a = p.conds().get(f"self.{field} is {EMPTY}")
         b = None
         for k, v in p.conds().items():
             if re.fullmatch(rf"{pitem} == self\.{field}|self\.{field} == {pitem}", k):
